@@ -97,6 +97,11 @@ package pebbledb
 //@   include writeset
 // C06: every signature of the batch that is the last one with its ID gets its record and all its index entries
 // written (again) in this batch - index values carry the entropy, so "hash unchanged" is no reason to skip them.
+// lastIdx is built from the IDs the signatures finally carry (generated ones included): when the batch is opened,
+// every signature's ID is in lastIdx and maps to an index at or after its own - so a signature is skipped only in
+// favour of a later one with the same ID, never because its ID is unknown to the table.
+//@   loop 2 invariant [C06.write] [C18.batch] 0 <= #i && #i <= len(sigs) && forall k in 0..#i :: (sigs[k].ID in lastIdx) && lastIdx[sigs[k].ID] >= k && lastIdx[sigs[k].ID] < #i
+//@   call (*github.com/cockroachdb/pebble.DB).NewBatch assert [C06.write] [C18.batch] forall k in 0..len(sigs) :: (sigs[k].ID in lastIdx) && lastIdx[sigs[k].ID] >= k && lastIdx[sigs[k].ID] < len(sigs)
 //@   ghost okAll bool
 //@   init okAll = true
 //@   loop 3 update okAll = prev(okAll) && (lastIdx[sig.ID] != prev(#i) || ((sigKey(sig.ID) in written) && (topoKey(sig.TopologyHash, sig.ID) in written) && (entrKey(sig.EntropyScore, sig.ID) in written) && (sig.FuzzyHash != "" ==> fuzzyKey(sig.FuzzyHash, sig.ID) in written)))
@@ -279,6 +284,7 @@ package pebbledb
 //@   loop 1 invariant [C18.export] len(sigs) == decN
 //@   call encoding/json.MarshalIndent assert [C18.export] len(sigs) == decN
 //@   ensures [C18.export] true
+//@   ensures [C06.zero] true
 
 //@ func encodeIndexValue
 
